@@ -11,8 +11,26 @@ for f in sorted(glob.glob(os.path.join(here, "lean", "Vata", "Properties", "*.le
     txt = open(f).read()
     if "namespace Vata.Props" not in txt:
         continue
-    for m in re.finditer(r"^theorem (C(\d\d)_\w+)", txt, flags=re.M):
-        found.setdefault("C" + m.group(2), []).append("Vata.Props." + m.group(1))
+    # nested namespaces inside `namespace Vata.Props` (example namespaces that hold a Cxx theorem) are part of the name
+    stack, inside = [], False
+    for ln in txt.split("\n"):
+        m = re.match(r"^namespace (\S+)", ln)
+        if m:
+            if m.group(1) == "Vata.Props":
+                inside, stack = True, []
+            elif inside:
+                stack.append(m.group(1))
+            continue
+        m = re.match(r"^end (\S+)", ln)
+        if m and inside:
+            if m.group(1) == "Vata.Props":
+                inside = False
+            elif stack and stack[-1] == m.group(1):
+                stack.pop()
+            continue
+        m = re.match(r"^theorem (C(\d\d)_\w+)", ln)
+        if m and inside:
+            found.setdefault("C" + m.group(2), []).append(".".join(["Vata.Props"] + stack + [m.group(1)]))
 # theorems about the utility classes under the algorithms are audited with the properties whose checks run their histories
 UTIL = {"OrdVector": ["C07", "C08", "C09"], "Antichain": ["C01", "C07", "C09"], "BinRel": ["C04", "C05", "C16"], "Cache": ["C01", "C07", "C09"], "Glue": ["C02", "C07", "C08", "C13"], "CliArgs": ["C01", "C07", "C09"], "LtsUtil": ["C04", "C16"]}
 for f in sorted(glob.glob(os.path.join(here, "lean", "Vata", "Properties", "Util_*.lean"))):
